@@ -1,4 +1,5 @@
 import Nstd.Life.LemmasStableOps
+import Nstd.Life.LemmasOps
 /-
   Property theorems for C05: elements of List, Map, MultiMap, HashMap, HashSet, PoolList and PoolMap
   never move while they live; swap hands the elements over without relocating them; the pool
@@ -89,6 +90,15 @@ theorem swap_hands_over (st st' : State) (c d : Var) (he : exec st (.swap c d) =
 theorem pool_in_place (st st' : State) (m : Micro) (hp : m.poolForm = true) (he : exec st m = some st') :
     ∃ evs, st'.log = st.log ++ evs ∧ ∀ e, e ∈ evs → ¬ e.copiesElement :=
   Stable.exec_pool m hp he
+
+/-- C05 `pool_in_place`, operation level: for every state and every PoolList / PoolMap operation
+    (`append`, `remove(iterator)`, `remove(element&)`, `remove(key)`, `clear`, re-construction, swap) the events of
+    the operation contain no copy construction of an element object and no assignment: elements are constructed
+    in place (one `construct` without source per element, by `lifecycle_ok` exactly one per lifetime) and never
+    copied or moved afterwards.  (The key object of a PoolMap item is copy-constructed from the caller's key.) -/
+theorem pool_ops_in_place (st : State) (op : Op) (hp : op.isPoolOp = true) :
+    ∃ evs, (step st op).log = st.log ++ evs ∧ ∀ e, e ∈ evs → ¬ e.copiesElement :=
+  Ops.step_pool st op hp
 
 /-- non-vacuity: a reachable state with elements in every node kind, an insertion and a removal that succeed -/
 def stableOps : List Op :=
